@@ -11,9 +11,9 @@ HARNESSES = {
     'k_write_le_u16': (('C02', 'C03', 'C18'), False, None),
     'k_write_le_u32': (('C02', 'C03', 'C18'), False, None),
     'k_write_le_u64': (('C02', 'C03', 'C17', 'C18'), False, None),
-    'k_read_le_u16': (('C04', 'C18'), False, None),
-    'k_read_le_u32': (('C04', 'C18'), False, None),
-    'k_read_le_u64': (('C04', 'C17', 'C18'), False, None),
+    'k_read_le_u16': (('C04', 'C12', 'C18'), False, None),
+    'k_read_le_u32': (('C04', 'C12', 'C18'), False, None),
+    'k_read_le_u64': (('C04', 'C12', 'C17', 'C18'), False, None),
     'k_names_ascii_order': (('C03', 'C04', 'C09'), True, 'the 7 listed ASCII name pairs (a symbolic harness over all 2-byte names did not finish in 15 min)'),
     'k_names_len_first': (('C03', 'C04', 'C09'), True, 'the 4 listed name pairs of different UTF-16 length, with supplementary-plane characters'),
 }
